@@ -18,6 +18,7 @@ import (
 func init() { register(&Check{ID: "C02", Race: true, Run: runC02}) }
 
 func runC02(ctx *core.Ctx) {
+	evCtx = ctx
 	ctx.SetRule("four case streams from PRNG(seed,index): early (tumbling/sliding/session, paced or stepwise feed: every delivery is checked against the largest timestamp among the Emit calls started so far, and every on-time row must be delivered); " +
 		"late (ALLOWEDLATENESS>0, stepwise feed, late rows aimed at fired windows inside/outside the allowance); garbage (same clean sequence with and without far-future / unusable-timestamp / too-late rows, also as the first row); idle (IDLETIMEOUT with wall-clock timestamps). " +
 		"non-trivial = at least 2 deliveries and at least one delivery whose started-count was below the total (early), one late row demanded or forbidden (late), one garbage row (garbage); distinct by (SQL, rows, feed) hash")
